@@ -13,7 +13,7 @@ import (
 	"path/filepath"
 	"strconv"
 
-	_ "vh/checks"
+	"vh/checks"
 	"vh/fw"
 )
 
@@ -72,6 +72,8 @@ func main() {
 		from, _ := strconv.Atoi(os.Args[5])
 		to, _ := strconv.Atoi(os.Args[6])
 		os.Exit(fw.ChildMain(ck, os.Args[3], seed, from, to, os.Args[7]))
+	case "proc":
+		os.Exit(checks.ProcChildMain())
 	case "replay":
 		if len(os.Args) < 3 {
 			os.Exit(2)
